@@ -81,6 +81,12 @@ var pinned = []string{
 	"echo ${x:a - -b*c} ${x:1:a - --b % c} ${x: -a * b:c + +d * e}",
 	"((a - -b * c, d += +e * f, g -= -h / i))",
 	"a[1 - -2 * 3]=x; echo ${a[i + +j % 2]}",
+	// reported by seeders on the unchanged tree (each fixed or attributed to a listed class)
+	"foo | &>x bar", "echo ${x:$h} ${x:$h:$l}", "echo ${a}[1] ${a}[i]", "echo ${x/a/\\\nb} ${x:-\\\nc}", "case x in a) b ;& esac", "case x in a) b ;;& esac",
+	"( (foo)\n)", "x=`foo # c`", "case x in\na) b ;;\n# c\nesac", "[[ ! ! ! -n $a ]]", "[[ ! a = b ]]", "[[ ! ! (a == b) ]]", "[[ ! ! a ]] && [[ ! (! b) ]]",
+	"time cat <<EOF # c\nb\nEOF", "coproc cat <<EOF # c\nb\nEOF", "time # c\ncmd", "foo() { # c1\n\tbar\n} <<EOF # c2\nbody\nEOF", "foo # a\vb\nbar # c\fd\nbaz",
+	// line-1 trailing comments, shebang-like and ordinary (Minify keeps only a shebang at 1:1)
+	"foo #!/usr/bin/env bash", "foo #!/usr/bin/env bash\nbar", "exec sh \"$0\" #!/bin/sh\nx", " #!/bin/sh\nfoo", "foo # plain\nbar", "#!/bin/sh\nfoo #!/bin/sh",
 	// witnesses of fixed findings
 	"case x in a) b;; esac\nfoo", "echo $(foo &)\nbar", "{ foo & }\nbar",
 	"cat <<-EOF\n\ttab\there\n\tEOF",
